@@ -12,7 +12,8 @@ LEVEL = "exploration"
 RULE = ("differential over the five model classes as five programs: (a) predict_win / predict_draw / predict_rank on every game of the "
         "prediction space G under K0 and G2+G3 under K1,K9,K10 must agree (1e-12; ranks exactly), both on fresh objects and on one model + one set of rating objects per class that is "
         "re-used for the whole shard with values assigned in place; (b) the whole C13 fault grammar "
-        "(every op x shape x position x fault, accept side included): same accept/reject decision and same exception class; (c) "
+        "(every op x shape x position x fault, accept side included): same accept/reject decision and same exception class, and again for every pair (player fault in team i, "
+        "team fault in team j != i) - two defects at once, where only the ORDER of validation decides the class; (c) "
         "the C18 alphabet: all pairs x 6 operators, hash / copy / deepcopy behaviour vectors, foreign operands; (d) "
         "inspect.signature of every public callable of model and rating classes; (e) BT-part vs BT-full on every 2-team game of "
         "S2 and P2 x 3 outcomes x 5 per-call option sets (1e-12); non-trivial = every compared item (each is a distinct input on which five programs "
@@ -64,6 +65,52 @@ def eval_grammar(op, shape_name, opt, fid):
         outs[kind] = (x["outcome"], x["exc"], bool(x["side"]))
     if len(set(outs.values())) != 1:
         return [f"{op} {shape_name} {fid} ({opt}): the five models do not treat this call alike: {outs}"]
+    return []
+
+
+def double_faults(shape):
+    """Two defects in two different teams (the five copies validate in nested loops; the ORDER in which they look must be the
+    same): player-level fault in team i x team-level fault in team j != i.  -> (label, builder(model, kind) -> teams arg)"""
+    n = len(shape)
+    pf = {"None": lambda m, k: None, "int": lambda m, k: 0, "float": lambda m, k: 21.5, "foreign": lambda m, k: c13.foreign_rating(k, 0),
+          "str": lambda m, k: "p"}
+    tf = {"empty": lambda T: [], "None": lambda T: None, "tuple": lambda T: tuple(T), "str": lambda T: "ab", "int": lambda T: 3}
+    for i in range(n):
+        for j in range(n):
+            if i == j:
+                continue
+            for pn, pfn in pf.items():
+                for tn, tfn in tf.items():
+                    def build(m, kind, i=i, j=j, pfn=pfn, tfn=tfn):
+                        t = c13.mk_teams(m, shape)
+                        t[i] = list(t[i])
+                        t[i][0] = pfn(m, kind)
+                        t[j] = tfn(t[j])
+                        return t
+                    yield f"player[{i}][0]<-{pn} & team[{j}]<-{tn}", build
+    # too few teams combined with a bad member
+    yield "one team with a bad player", lambda m, kind: [[None]]
+    yield "teams tuple with a bad team", lambda m, kind: ([m.rating()], None)
+
+
+def eval_double(op, shape_name, label):
+    shape = c13.SHAPES[shape_name]
+    for lab, build in double_faults(shape):
+        if lab == label:
+            break
+    else:
+        raise core.HarnessError(f"unknown double fault {label}")
+    outs = {}
+    for kind in spaces.KINDS:
+        m = spaces.model_class(kind)()
+        arg = build(m, kind)
+        try:
+            getattr(m, "rate" if op.startswith("rate") else op)(arg)
+            outs[kind] = "returned"
+        except Exception as e:
+            outs[kind] = type(e).__name__
+    if len(set(outs.values())) != 1:
+        return [f"{op.split('+')[0]}({shape_name}; {label}): the five models do not treat this call alike: {outs}"]
     return []
 
 
@@ -214,6 +261,13 @@ def run_unit(unit, ctx):
                     for m in eval_grammar(op, sn, opt, fid):
                         acc.violation(PID, f"grammar:{op.split('+')[0]}:{c13.fault_class(fid)}", m, {"what": "grammar", "op": op, "shape": sn, "opt": opt, "fid": fid})
         acc.sample({"what": "grammar", "op": op, "shape": sn, "fault": fid})
+        if "+" not in op:  # double faults: once per entry point
+            for sn, sh in c13.SHAPES.items():
+                for label, _ in double_faults(sh):
+                    acc.evals += 5
+                    acc.nontrivial += 1
+                    for m in eval_double(op, sn, label):
+                        acc.violation(PID, f"grammar2:{op}", m, {"what": "grammar2", "op": op, "shape": sn, "label": label})
     elif what == "static":
         msgs, n = eval_static()
         acc.evals += n
@@ -237,6 +291,8 @@ def replay(case):
         return [m for _, m in eval_pred(spaces.config(case["cfg"]), core.game_unhex(case["game"]))]
     if w == "grammar":
         return eval_grammar(case["op"], case["shape"], case["opt"], case["fid"])
+    if w == "grammar2":
+        return eval_double(case["op"], case["shape"], case["label"])
     if w == "static":
         return [m for _, m in eval_static()[0]]
     return eval_bt(spaces.config(case["cfg"]), core.game_unhex(case["game"]))
